@@ -213,7 +213,7 @@ def value_slice(flows, b, fl, site_bb, operand):
         root = flows.prog.bodies[root.item["parent"]]
     # climb out of closures into the enclosing function, but not into its callers; descend into
     # callees' return values (Edge::ordered)
-    return flows.slice(b.path, fl._op_reads(operand), up=True, down=True, data_only=False, sw_filter=sw_filter, roots=(root.path,))
+    return flows.slice(b.path, fl._op_reads(operand), up=True, down=True, data_only=False, sw_filter=sw_filter, roots=(root.path,), value_only=True)
 
 
 def comparison_facts(prog, sl):
@@ -339,7 +339,7 @@ def rule4(ctx, prog, flows):
         n += 1
     if ctx.config == "adjacency_matrix":
         check_refusal(ctx, g, "R-C02-4", prog.one("matrix::Graph::get_sparse_adjacency_matrix"), "multi_edges", True, "multi-edge graphs")
-    ctx.floor("R-C02-4", "kind_restricted_queries", n, 14)
+    ctx.floor("R-C02-4", "kind_restricted_queries", n, 10)
     m = 0
     for p in sorted(prog.bodies):
         b = prog.bodies[p]
@@ -365,7 +365,7 @@ def rule4(ctx, prog, flows):
                     # match on an Option/Result returned by a lookup: None = 0 / Err = 1
                     ok = True
             ctx.require(ok, "R-C02-4", "notfound|%s|%s" % (b.short, v), "%s in %s is conditional on a failed lookup" % (v, b.short.split("::")[-1]), "%s in %s is not conditional on a lookup" % (v, b.short), loc_str(s.span))
-    ctx.floor("R-C02-4", "notfound_sites", m, 10)
+    ctx.floor("R-C02-4", "notfound_sites", m, 5)
 
 
 # ---------------------------------------------------------------------------------------- R-C02-5
